@@ -194,6 +194,10 @@ func tokens(body []byte, boundary string) ([]string, error) {
 			if dec.More() {
 				return toks, fmt.Errorf("a part body has trailing data: %q", string(raw))
 			}
+			if string(bytes.TrimSpace(raw)) == `{"hasNext":false}` {
+				toks = append(toks, "TFinal") // the part that ends a stream left open
+				continue
+			}
 			if j.Incremental != nil {
 				var ps []string
 				for _, inc := range j.Incremental {
@@ -421,5 +425,6 @@ func Run(c *gen.Ctx) error {
 	}
 	concurrentStreams(c, gen.NewRand(c.Seed+17), meta)
 	failingStreams(meta)
+	deadlineStreams(c, meta)
 	return meta.Write(c.OutDir)
 }
